@@ -129,6 +129,9 @@ Definition outside (d : dist R) (x : R) : Prop :=
   | _ => False
   end.
 
+Lemma zfact_pos : forall n, (0 < zfact n)%Z.
+Proof. induction n; [simpl; lia|]. change (zfact (S n)) with (Z.of_nat (S n) * zfact n)%Z. apply Z.mul_pos_pos; lia. Qed.
+
 Lemma r_pow_nonneg : forall x y, 0 <= x -> 0 <= y -> exists v, r_pow x y = Val v /\ 0 <= v.
 Proof.
   intros x y Hx Hy. unfold r_pow. destruct (Rlt_dec 0 x).
@@ -149,13 +152,264 @@ Lemma sqrt_2pi_pos : 0 < sqrt (2 * Rtrigo1.PI).
 Proof. apply sqrt_lt_R0. pose proof PI_RGT_0. lra. Qed.
 
 Lemma normal_kernel_val : forall fac mu sigma x, 0 < sigma -> 0 <= fac ->
-  exists v, normal_kernel NR fac mu sigma x = Val v /\ 0 <= v.
+  normal_kernel NR fac mu sigma x =
+    Val (fac / (sigma * sqrt (2 * Rtrigo1.PI)) * exp (- / 2 * ((x - mu) / sigma * ((x - mu) / sigma)))).
 Proof.
   intros fac mu sigma x Hs Hf. unfold normal_kernel. nr. pose proof sqrt_2pi_pos as Hq.
-  rewrite r_sqrt_val by lra. cbn [rbind].
+  rewrite r_sqrt_val by (pose proof PI_RGT_0; lra). cbn [rbind].
   rewrite r_div_val by nra. cbn [rbind]. rewrite r_div_val by lra. cbn [rbind].
-  destruct (r_pow_nonneg ((x - mu) / sigma) 2) as [sq [Esq Hsq]].
-  - (* a square is what ** 2 computes: the base may be negative, r_pow is then outside the model *)
-Abort.
+  rewrite r_pow_sq. cbn [rbind]. unfold half. nr.
+  replace (1 * powerRZ 2 (-1)) with (/ 2) by (simpl; field). reflexivity.
+Qed.
+
+Ltac side := solve [ lra | nra | assumption | apply Rgt_not_eq; solve [lra | nra | assumption]
+                   | apply Rlt_le; assumption ].
+Ltac rv1 :=
+  match goal with
+  | |- context [r_div ?a ?b] => rewrite (r_div_val a b) by side
+  | |- context [r_pow ?a ?b] => rewrite (r_pow_val a b) by side
+  | |- context [r_log ?a] => rewrite (r_log_val a) by side
+  | |- context [r_sqrt ?a] => rewrite (r_sqrt_val a) by side
+  end; cbn [rbind].
+Ltac rv := repeat rv1.
+
+Tactic Notation "tcase" constr(c) ident(E) := destruct c eqn:E;
+  [ try apply Rltb_true in E; try apply Rleb_true in E; try apply Reqb_true in E
+  | try apply Rltb_false in E; try apply Rleb_false in E; try apply Reqb_false in E ].
+
+Theorem pdf_total_nonneg_zero_outside : forall d x,
+  wfd d -> has_density d = true ->
+  exists v, pdf NR false d x = Val v /\ 0 <= v /\ (outside d x -> v = 0).
+Proof.
+  intros d x W HD. destruct d; try discriminate HD; simpl in W; unfold pdf, outside; unfold zero, one; nr.
+  - (* Beta *)
+    destruct W as [W1 W2].
+    tcase (Rltb 0 x) E1; [tcase (Rltb x 1) E2|]; cbn [andb].
+    + rewrite !r_pow_val by lra. cbn [rbind]. unfold zero, one; nr. rewrite beta_fn_val by assumption. cbn [rbind].
+      pose proof (exp_pos (lgammaf a1 + lgammaf a2 - lgammaf (a1 + a2))) as He.
+      rewrite r_div_val by lra. eexists; split; [reflexivity|]. split; [|intros [C|C]; lra].
+      left. apply Rdiv_lt_0_compat; [apply Rmult_lt_0_compat; apply Rpower_pos|assumption].
+    + eexists; split; [reflexivity|]. split; [lra|reflexivity].
+    + eexists; split; [reflexivity|]. split; [lra|reflexivity].
+  - (* Constant *)
+    tcase (Reqb x (as_float NR c)) E.
+    + eexists; split; [reflexivity|]. split; [lra|]. intros C. contradiction.
+    + eexists; split; [reflexivity|]. split; [lra|reflexivity].
+  - (* Erlang *)
+    destruct W as [W1 [W2 W3]]. subst lambda. tcase (Rleb 0 x) E.
+    + assert (Hl : 0 < 1 / scale) by (apply Rdiv_lt_0_compat; lra).
+      destruct (r_pow_nonneg (1 / scale * x) (IZR (k - 1))) as [pw [Ep Hp]]; [nra|apply (IZR_le 0); lia|].
+      rewrite Ep. cbn [rbind].
+      assert (Hf : 0 < IZR (zfact (Z.to_nat (k - 1)))).
+      { apply (IZR_lt 0). apply zfact_pos. }
+      rewrite r_div_val by lra. eexists; split; [reflexivity|]. split; [|intros C; lra].
+      pose proof (exp_pos (- (1 / scale) * x)).
+      apply Rmult_le_pos; [apply Rmult_le_pos; [apply Rmult_le_pos|]|]; try lra. left. apply Rinv_0_lt_compat. assumption.
+    + eexists; split; [reflexivity|]. split; [lra|reflexivity].
+  - (* Exponential *)
+    tcase (Rleb 0 x) E.
+    + rv. eexists; split; [reflexivity|]. split; [|intros C; lra].
+      pose proof (exp_pos (- x / mean)). assert (0 < 1 / mean) by (apply Rdiv_lt_0_compat; lra). nra.
+    + eexists; split; [reflexivity|]. split; [lra|reflexivity].
+  - (* Gamma *)
+    destruct W as [W1 W2]. tcase (Rltb 0 x) E.
+    + rv. pose proof (gamma_pos shape W1) as Hg. rv.
+      eexists; split; [reflexivity|]. split; [|intros C; lra].
+      left. apply Rdiv_lt_0_compat; [|assumption].
+      apply Rmult_lt_0_compat; [apply Rmult_lt_0_compat; apply Rpower_pos|apply exp_pos].
+    + eexists; split; [reflexivity|]. split; [lra|reflexivity].
+  - (* LogNormal *)
+    destruct W as [W1 [W2 W3]]. subst c2s2 c2pis2. tcase (Rltb 0 x) E.
+    + assert (Hc : 0 < 2 * sigma * sigma) by nra.
+      assert (Hr : 0 < sqrt (Rtrigo1.PI * (2 * sigma * sigma))) by (apply sqrt_lt_R0; pose proof PI_RGT_0; nra).
+      rv. eexists; split; [reflexivity|]. split; [|intros C; lra].
+      left. apply Rdiv_lt_0_compat; [apply exp_pos|nra].
+    + eexists; split; [reflexivity|]. split; [lra|reflexivity].
+  - (* Normal *)
+    rewrite normal_kernel_val by (try assumption; lra).
+    eexists; split; [reflexivity|]. split; [|intros []].
+    pose proof sqrt_2pi_pos. left. apply Rmult_lt_0_compat; [apply Rdiv_lt_0_compat; nra|apply exp_pos].
+  - (* NormalTrunc *)
+    destruct W as [W1 [W2 [W3 [W4 [W5 W6]]]]].
+    assert (Hf : 0 < pdfac) by (subst pdfac; apply Rdiv_lt_0_compat; lra).
+    tcase (Rltb x lo) E1; cbn [orb].
+    + eexists; split; [reflexivity|]. split; [lra|reflexivity].
+    + tcase (Rltb hi x) E2.
+      * eexists; split; [reflexivity|]. split; [lra|reflexivity].
+      * rewrite normal_kernel_val by (try assumption; lra).
+        eexists; split; [reflexivity|]. split; [|intros [C|C]; lra].
+        pose proof sqrt_2pi_pos. left. apply Rmult_lt_0_compat; [apply Rdiv_lt_0_compat; nra|apply exp_pos].
+  - (* Pearson5 *)
+    destruct W as [W1 W2]. tcase (Rltb 0 x) E.
+    + rv. pose proof (gamma_pos alpha W1) as Hg. rv.
+      eexists; split; [reflexivity|]. split; [|intros C; lra].
+      left. apply Rdiv_lt_0_compat; [|assumption].
+      apply Rmult_lt_0_compat; [apply Rmult_lt_0_compat; apply Rpower_pos|apply exp_pos].
+    + eexists; split; [reflexivity|]. split; [lra|reflexivity].
+  - (* Pearson6 *)
+    destruct W as [W1 [W2 W3]]. tcase (Rltb 0 x) E.
+    + rv. assert (Hxb : 0 < x / beta) by (apply Rdiv_lt_0_compat; lra). rv.
+      unfold zero, one; nr. rewrite beta_fn_val by assumption. cbn [rbind]. rv.
+      pose proof (exp_pos (lgammaf a1 + lgammaf a2 - lgammaf (a1 + a2))) as He.
+      pose proof (Rpower_pos (1 + x / beta) (a1 + a2)) as Hp2.
+      assert (Hden : 0 < beta * exp (lgammaf a1 + lgammaf a2 - lgammaf (a1 + a2)) * Rpower (1 + x / beta) (a1 + a2))
+        by (apply Rmult_lt_0_compat; [apply Rmult_lt_0_compat|]; assumption).
+      rv. eexists; split; [reflexivity|]. split; [|intros C; lra].
+      left. apply Rdiv_lt_0_compat; [apply Rpower_pos|assumption].
+    + eexists; split; [reflexivity|]. split; [lra|reflexivity].
+  - (* Triangular, repaired *)
+    destruct W as [[W1 W2] W3]. unfold tri_pdf. unfold zero, two; nr.
+    tcase (Rleb lo x) E1; [tcase (Rltb x mode) E2|]; cbn [andb].
+    + assert (0 < (hi - lo) * (mode - lo)) by nra. rv.
+      eexists; split; [reflexivity|]. split; [|intros [C|C]; lra].
+      apply Rmult_le_pos; [lra|]. left. apply Rinv_0_lt_compat. assumption.
+    + tcase (Rltb mode x) E3; [tcase (Rleb x hi) E4|]; cbn [andb].
+      * assert (0 < (hi - lo) * (hi - mode)) by nra. rv.
+        eexists; split; [reflexivity|]. split; [|intros [C|C]; lra].
+        apply Rmult_le_pos; [lra|]. left. apply Rinv_0_lt_compat. assumption.
+      * tcase (Reqb x mode) E5; [lra|]. eexists; split; [reflexivity|]. split; [lra|reflexivity].
+      * tcase (Reqb x mode) E5.
+        -- rv. eexists; split; [reflexivity|]. split; [|intros [C|C]; lra].
+           left. apply Rdiv_lt_0_compat; lra.
+        -- lra.
+    + assert (E3 : Rltb mode x = false) by (apply Rltb_false; lra). rewrite E3. cbn [andb].
+      tcase (Reqb x mode) E5; [lra|]. eexists; split; [reflexivity|]. split; [lra|reflexivity].
+  - (* Uniform *)
+    tcase (Rleb lo x) E1; [tcase (Rleb x hi) E2|]; cbn [andb].
+    + rv. eexists; split; [reflexivity|]. split; [|intros [C|C]; lra]. left. apply Rdiv_lt_0_compat; lra.
+    + eexists; split; [reflexivity|]. split; [lra|reflexivity].
+    + eexists; split; [reflexivity|]. split; [lra|reflexivity].
+  - (* Weibull *)
+    destruct W as [W1 W2]. tcase (Rltb 0 x) E.
+    + rv. assert (Hxb : 0 < x / beta) by (apply Rdiv_lt_0_compat; lra). rv.
+      eexists; split; [reflexivity|]. split; [|intros C; lra].
+      left. apply Rmult_lt_0_compat; [apply Rmult_lt_0_compat; [apply Rmult_lt_0_compat|]|];
+        try apply Rpower_pos; try apply exp_pos; assumption.
+    + eexists; split; [reflexivity|]. split; [lra|reflexivity].
+Qed.
+
+(* ------------------------------------------------------------------ *)
+(* probabilities of the discrete classes                                 *)
+Definition has_prob (d : dist R) : bool :=
+  match d with
+  | DBernoulli _ | DBinomial _ _ | DDiscreteUniform _ _ | DGeometric _ _ | DNegBinomial _ _ _ | DPoisson _ _ => true
+  | _ => false
+  end.
+
+Definition outsideZ (d : dist R) (k : Z) : Prop :=
+  match d with
+  | DBernoulli _ => k <> 0%Z /\ k <> 1%Z
+  | DBinomial n _ => (k < 0 \/ n < k)%Z
+  | DDiscreteUniform lo hi => (k < lo \/ hi < k)%Z
+  | DGeometric _ _ | DNegBinomial _ _ _ | DPoisson _ _ => (k < 0)%Z
+  | _ => False
+  end.
+
+Lemma zcomb_nonneg : forall n k, (0 <= zcomb n k)%Z.
+Proof.
+  intros. unfold zcomb. apply Z.div_pos; [pose proof (zfact_pos (Z.to_nat n)); lia|].
+  apply Z.mul_pos_pos; apply zfact_pos.
+Qed.
+
+Theorem prob_total_nonneg_zero_outside : forall d k,
+  wfd d -> has_prob d = true ->
+  exists v, prob NR d k = Val v /\ 0 <= v /\ (outsideZ d k -> v = 0).
+Proof.
+  intros d k W HD. destruct d; try discriminate HD; simpl in W; unfold prob, outsideZ; unfold zero, one; nr.
+  - (* Bernoulli *)
+    eexists; split; [reflexivity|]. destruct (k =? 0)%Z eqn:E0; [|destruct (k =? 1)%Z eqn:E1].
+    + split; [lra|]. apply Z.eqb_eq in E0. intros [C _]; contradiction.
+    + split; [lra|]. apply Z.eqb_eq in E1. intros [_ C]; contradiction.
+    + split; [lra|reflexivity].
+  - (* Binomial *)
+    destruct W as [W1 W2].
+    destruct (0 <=? k)%Z eqn:E0; [destruct (k <=? n)%Z eqn:E1|]; cbn [andb].
+    + apply Z.leb_le in E0, E1.
+      destruct (r_pow_nonneg p (IZR k)) as [v1 [P1 H1]]; [lra|apply (IZR_le 0); lia|].
+      destruct (r_pow_nonneg (1 - p) (IZR (n - k))) as [v2 [P2 H2]]; [lra|apply (IZR_le 0); lia|].
+      rewrite P1. cbn [rbind]. unfold one; nr. rewrite P2. cbn [rbind].
+      eexists; split; [reflexivity|]. split; [|intros [C|C]; lia].
+      pose proof (IZR_le 0 _ (zcomb_nonneg n k)). apply Rmult_le_pos; [apply Rmult_le_pos|]; assumption.
+    + eexists; split; [reflexivity|]. split; [lra|reflexivity].
+    + eexists; split; [reflexivity|]. split; [lra|reflexivity].
+  - (* DiscreteUniform *)
+    destruct (lo <=? k)%Z eqn:E0; [destruct (k <=? hi)%Z eqn:E1|]; cbn [andb].
+    + apply Z.leb_le in E0, E1.
+      assert (Hn : 0 < IZR (hi - lo) + 1) by (pose proof (IZR_lt 0 (hi - lo) ltac:(lia)); lra).
+      rewrite r_div_val by lra. eexists; split; [reflexivity|]. split; [|intros [C|C]; lia].
+      left. apply Rdiv_lt_0_compat; lra.
+    + eexists; split; [reflexivity|]. split; [lra|reflexivity].
+    + eexists; split; [reflexivity|]. split; [lra|reflexivity].
+  - (* Geometric *)
+    destruct (0 <=? k)%Z eqn:E0.
+    + apply Z.leb_le in E0. rewrite r_pow_val by lra. cbn [rbind].
+      eexists; split; [reflexivity|]. split; [|intros C; lia].
+      pose proof (Rpower_pos (1 - p) (IZR k)). nra.
+    + eexists; split; [reflexivity|]. split; [lra|reflexivity].
+  - (* NegBinomial *)
+    destruct W as [W1 W2]. destruct (0 <=? k)%Z eqn:E0.
+    + apply Z.leb_le in E0. rewrite r_pow_val by lra. cbn [rbind]. unfold one; nr.
+      rewrite r_pow_val by lra. cbn [rbind].
+      eexists; split; [reflexivity|]. split; [|intros C; lia].
+      pose proof (IZR_le 0 _ (zcomb_nonneg (s + k - 1) k)).
+      pose proof (Rpower_pos p (IZR s)). pose proof (Rpower_pos (1 - p) (IZR k)).
+      apply Rmult_le_pos; [apply Rmult_le_pos|]; lra.
+    + eexists; split; [reflexivity|]. split; [lra|reflexivity].
+  - (* Poisson *)
+    destruct (0 <=? k)%Z eqn:E0.
+    + apply Z.leb_le in E0. rewrite r_pow_val by lra. cbn [rbind].
+      pose proof (IZR_lt 0 _ (zfact_pos (Z.to_nat k))) as Hf.
+      rewrite r_div_val by lra. eexists; split; [reflexivity|]. split; [|intros C; lia].
+      left. apply Rdiv_lt_0_compat; [|assumption]. apply Rmult_lt_0_compat; [apply exp_pos|apply Rpower_pos].
+    + eexists; split; [reflexivity|]. split; [lra|reflexivity].
+Qed.
+
+(* sums of probabilities: Bernoulli and discrete uniform sum to one; the
+   geometric partial sums are 1 - (1-p)^(n+1) (so they tend to one) *)
+Theorem bernoulli_sums_to_one : forall p v0 v1,
+  prob NR (DBernoulli p) 0 = Val v0 -> prob NR (DBernoulli p) 1 = Val v1 -> v0 + v1 = 1.
+Proof. intros p v0 v1 H0 H1. simpl in H0, H1. unfold one in *; nr. inversion H0; inversion H1. lra. Qed.
+
+Fixpoint sum_prob (d : dist R) (lo : Z) (n : nat) : R :=
+  match n with
+  | O => 0
+  | S m => sum_prob d lo m + match prob NR d (lo + Z.of_nat m) with Val v => v | Err _ => 0 end
+  end.
+
+Theorem discrete_uniform_sums_to_one : forall lo hi, (lo < hi)%Z ->
+  sum_prob (DDiscreteUniform lo hi) lo (Z.to_nat (hi - lo + 1)) = 1.
+Proof.
+  intros lo hi H.
+  assert (G : forall n, (Z.of_nat n <= hi - lo + 1)%Z ->
+              sum_prob (DDiscreteUniform lo hi) lo n = INR n / (IZR (hi - lo) + 1)).
+  { induction n as [|m IH]; intros Hn.
+    - simpl. unfold Rdiv. ring.
+    - change (sum_prob (DDiscreteUniform lo hi) lo (S m)) with
+        (sum_prob (DDiscreteUniform lo hi) lo m +
+         match prob NR (DDiscreteUniform lo hi) (lo + Z.of_nat m) with Val v => v | Err _ => 0 end).
+      rewrite IH by lia. unfold prob. unfold one; nr.
+      rewrite (proj2 (Z.leb_le lo (lo + Z.of_nat m))) by lia.
+      rewrite (proj2 (Z.leb_le (lo + Z.of_nat m) hi)) by lia. cbn [andb].
+      assert (Hd : 0 < IZR (hi - lo) + 1) by (pose proof (IZR_lt 0 (hi - lo) ltac:(lia)); lra).
+      rewrite r_div_val by lra. rewrite S_INR. field. lra. }
+  rewrite G by lia. rewrite INR_IZR_INZ, Z2Nat.id by lia. rewrite plus_IZR.
+  assert (Hd : 0 < IZR (hi - lo) + 1) by (pose proof (IZR_lt 0 (hi - lo) ltac:(lia)); lra).
+  field. lra.
+Qed.
+
+Theorem geometric_partial_sums : forall p lnp n, 0 < p < 1 ->
+  sum_prob (DGeometric p lnp) 0 (S n) = 1 - (1 - p) ^ (S n).
+Proof.
+  intros p lnp n Hp. induction n as [|m IH].
+  - simpl. unfold one; nr. rewrite r_pow_val by lra. simpl.
+    rewrite Rpower_O by lra. ring.
+  - change (sum_prob (DGeometric p lnp) 0 (S (S m))) with
+      (sum_prob (DGeometric p lnp) 0 (S m) +
+       match prob NR (DGeometric p lnp) (0 + Z.of_nat (S m)) with Val v => v | Err _ => 0 end).
+    rewrite IH. unfold prob. unfold one; nr.
+    rewrite (proj2 (Z.leb_le 0 (0 + Z.of_nat (S m)))) by lia.
+    rewrite r_pow_val by lra. cbn [rbind]. rewrite Z.add_0_l, <- INR_IZR_INZ, Rpower_pow by lra.
+    simpl. ring.
+Qed.
 
 End DensityR.
